@@ -61,54 +61,37 @@ impl DataItem for DateItem {
         let mut date = self.0;
         let mut duration = other.as_any().downcast_ref::<DurationItem>()?.get_duration();
 
+        /* A span is read as 365 day years, 30 day months and remaining days */
+        let years = self.get_year_from_duration(duration);
+        duration = Duration::seconds(duration.num_seconds() - (YEAR * years));
+
+        let months = self.get_month_from_duration(duration);
+        duration = Duration::seconds(duration.num_seconds() - (MONTH * months));
+
         match operation_type {
             OperationType::Add => {
-                match self.get_year_from_duration(duration) {
-                    0 => (),
-                    n => {
-                        let years_diff = date.year().checked_add(i32::try_from(n).ok()?)?;
-                        date     = NaiveDate::from_ymd_opt(years_diff, date.month() as u32, date.day())?;
-                        duration = Duration::seconds(duration.num_seconds() - (YEAR * n))
-                    }
-                };
+                if years != 0 || months != 0 {
+                    /* Year and month parts are applied in one step, an intermediate date (29 February + 1 year) does not need to exist */
+                    let total_months = (date.year() as i64) * 12 + date.month0() as i64 + years.checked_mul(12)? + months;
+                    let year = i32::try_from(total_months.div_euclid(12)).ok()?;
+                    let month = total_months.rem_euclid(12) as u32 + 1;
+                    date = NaiveDate::from_ymd_opt(year, month, date.day())?;
+                }
 
-                match self.get_month_from_duration(duration) {
-                    0 => (),
-                    n => {
-                        /* Months are counted from zero, otherwise a sum landing on December has no month */
-                        let months = date.month0() + n as u32;
-                        let years_diff = months / 12;
-                        let month = (months % 12) + 1;
-                        date     = NaiveDate::from_ymd_opt(date.year() + years_diff as i32, month as u32, date.day())?;
-                        duration = Duration::seconds(duration.num_seconds() - (MONTH * n))
-                    }
-                };
                 Some(Rc::new(DateItem(date.checked_add_signed(duration)?, self.1.clone())))
             },
 
             OperationType::Sub => {
-                match self.get_year_from_duration(duration) {
-                    0 => (),
-                    n => {
-                        let years_diff = date.year().checked_sub(i32::try_from(n).ok()?)?;
-                        date     = NaiveDate::from_ymd_opt(years_diff, date.month() as u32, date.day())?;
-                        duration = Duration::seconds(duration.num_seconds() - (YEAR * n))
+                if years != 0 || months != 0 {
+                    let year = i32::try_from((date.year() as i64).checked_sub(years)? - (months / 12)).ok()?;
+                    let mut month = date.month() as i64 - (months % 12);
+                    if month <= 0 {
+                        month += 12;
                     }
-                };
 
-                match self.get_month_from_duration(duration) {
-                    0 => (),
-                    n => {
-                        let years = date.year() - (n as i32 / 12);
-                        let mut months = date.month() as i32 - (n as i32 % 12);
-                        if months < 0 {
-                            months += 12;
-                        }
+                    date = NaiveDate::from_ymd_opt(year, month as u32, date.day())?;
+                }
 
-                        date = NaiveDate::from_ymd_opt(years as i32, months as u32, date.day())?;
-                        duration = Duration::seconds(duration.num_seconds() - (MONTH * n))
-                    }
-                };
                 Some(Rc::new(DateItem(date.checked_sub_signed(duration)?, self.1.clone())))
             },
             _ => None
